@@ -375,6 +375,16 @@ def call_builtin(I, name, args, kwargs, node, frame):
             return VRef(run.alloc(r), "list")
         if name in ("set", "frozenset") and isinstance(v, VRef) and v.kind == "set" and not run.rec(v.oid).concrete:
             return VRef(run.alloc(run.rec(v.oid).copy()), "set")
+        if name in ("set", "frozenset") and isinstance(v, VRef) and v.kind == "list" and not run.rec(v.oid).concrete \
+                and run.rec(v.oid).elem[0] in ("int", "real", "bool", "str", "enum", "any"):
+            # the set of the elements of a symbolic list of scalars: membership is the list's, 1 <= size <= length (0 for an empty list)
+            lr = run.rec(v.oid)
+            st = I.fresh(("set", lr.elem), run.fresh_name(f"{lr.sym}#asset"))
+            sr = run.rec(st.oid)
+            if lr.mem is not None and sr.dom is not None and sr.dom.sort() == lr.mem.sort():
+                sr.dom = lr.mem
+            run.assume(z3.And(sr.size >= 0, sr.size <= lr.length, z3.Implies(lr.length > 0, sr.size >= 1)))
+            return st
         items = I.iterate_concrete(v)
         return {"list": I.new_list, "tuple": VTuple, "set": I.new_set, "frozenset": I.new_set}[name](items)
     if name == "dict":
@@ -728,6 +738,40 @@ def list_method(I, ref, r, name, args, kwargs):
             raise E.PyExc(VExc("ValueError"), "list.index")
     if name == "count" and r.concrete:
         return VInt(z3.Sum([z3.If(I.eq(x, args[0]), 1, 0) for x in r.items] or [z3.IntVal(0)]))
+    if name == "sort" and not r.concrete:
+        # sorting a symbolic list: a permutation -- length, membership, counters and element facts stay, the order is forgotten.
+        # The key function is applied to one arbitrary element so that a raising key is seen.
+        I.fire("container_write", ref)
+        if kwargs.get("key") is not None:
+            probe = I.symlist_elem(ref, r, z3.Int(run.fresh_name("k!sort")))
+            I.call_value(kwargs["key"], [probe], {})
+        if r.arr is not None:
+            r.arr = z3.Array(run.fresh_name(f"{r.sym}#sorted"), z3.IntSort(), r.arr.sort().range())
+        r.appended = []
+        if r.elem[0] == "obj":
+            r.sym = run.fresh_name(f"{r.sym}#sorted")       # element objects by position are new names; list-wide ghosts (cnt, preds, sums) are kept
+            r.farr = {}
+            r.shift = 0
+        if "list.sort on a symbolic list: order forgotten" not in run.abstractions:
+            run.abstractions.append("list.sort on a symbolic list: order forgotten")
+        return NONE
+    if name == "remove" and not r.concrete and isinstance(args[0], VRef) and getattr(args[0], "from_list", None) == r.sym:
+        # removing an element that was obtained FROM this list (min/max with key): present by construction, so no ValueError; one element fewer
+        I.fire("container_write", ref)
+        r.length = r.length - 1
+        r.appended = []
+        r.sym = run.fresh_name(f"{r.sym}#removed")
+        r.farr = {}
+        r.mem = None
+        r.memfn = None
+        for cn in list(r.cnt):
+            c2 = z3.Int(run.fresh_name(f"{r.sym}#count:{cn}"))
+            run.assume(z3.And(c2 >= 0, c2 <= r.length, c2 <= r.cnt[cn], c2 >= r.cnt[cn] - 1))
+            r.cnt[cn] = c2
+        r.sums = {}
+        if "list.remove of an element taken from the same symbolic list" not in run.abstractions:
+            run.abstractions.append("list.remove of an element taken from the same symbolic list")
+        return NONE
     if name == "sort":
         I.fire("container_write", ref)
         s = I.sorted_(ref, kwargs)
